@@ -117,7 +117,8 @@ def register(R):
                modifies=["_total_samples", "_samples_since_reset", "_drift_state", "_input_cols", "_input_col_dim", "_ref_data",
                          "_test_data_size", "_kdqtree", "_critical_dist", "_test_dist", "_drift_counter"])
     register_batch(R)
-    R.contract(KS + ".reset", tags=("C02", "C09"), params={},
+    # (C01: the warm-up of the next epoch - a full reference window, then a full test window - starts from these zeros)
+    R.contract(KS + ".reset", tags=("C02", "C09", "C01"), params={},
                ensures=["self._samples_since_reset == 0 and self._drift_state is None and self._kdqtree is None and "
                         "self._test_data_size == 0 and self._drift_counter == 0 and len(self._ref_data) == 0 and "
                         "self._critical_dist is None and self._test_dist is None",
